@@ -50,6 +50,26 @@ CHECKS['C04'] = dict(
     note='Trusted: rustc MIR dump, vf.engine, vf.ideal exact mode, props/wire.py layouts, the FramedRead loop as documented (replays use the real one), z3. Shadowsocks 2022 salt+fixed header boundary exempt as the property says. Unauthenticated VMess size fields with 2+ segments run in the thorough tier only (10-20 min per job). Trojan/SOCKS5 framing: C02/C13. More than 3 segments and the transports below AsyncRead are outside.',
     technique='MIR symbolic execution to z3 (genuine stream, symbolic cut points, FramedRead loop model; poll_next with contract transport)', design='DESIGN.md section 2, C04 and section 7')
 
+CHECKS['C06'] = dict(
+    text='Server-side decoders on an arbitrary input of arbitrary length, with the ideal-AEAD ghost log holding only what parties without the required credential can have sealed (another pre-shared key differing in at least one bit; the server key alone where a registered user key is also required; an unregistered key) next to one genuine request of registered user A: a connect/relay item reaches the relay only if every opened ciphertext was sealed under the configured credential; with a two-user table (symbolic keys and identity hashes) traffic authenticated under A is attributed to A (session user = A, so replies use A\'s key) and a lookup miss never falls back to the server key. Trojan: an item is yielded - and the Header state left - only if the 56 presented characters decode (u8::from_str_radix semantics) to the stored SHA-224 digest, for every input.',
+    note='Trusted: rustc MIR dump, vf.engine, vf.ideal, AES-ECB/CRC/FNV as arbitrary functions, z3. VMess user-id matching (auth id + sealed header under a registered key) is covered by the C04 server job on valid input and C07 on arbitrary input, not yet by an adversarial log here; Shadowsocks UDP identity headers and the process-wide UDP cipher cache are outside. Whether the server dials is decided by the first item (async relay_to is outside).',
+    technique='MIR symbolic execution to z3 (ideal-AEAD ghost log of non-credentialed ciphertexts; accept implies credential)', design='DESIGN.md section 2, C06')
+
+CHECKS['C01'] = dict(
+    text='Codec composition, the only layer that transforms bytes: the REAL client encoder (Shadowsocks TCP, AEAD and 2022 ciphers) is executed for a script of application writes of arbitrary content towards an arbitrary target (IPv4, IPv6 or domain), and the buffer it produced - with the key identities, nonces and framing it really used recorded in the ideal-AEAD log - is read by the REAL server decoder (server PayloadCodec) through the FramedRead loop model in 1 or 2 segments with a symbolic cut: the first item is the connect item naming exactly the requested address and the concatenation of everything released equals the concatenation of everything written. Counterexamples are replayed natively with the real ciphers end to end (real client codec -> real FramedRead -> real server codec).',
+    note='Bounds: write sizes from a grid of concrete values (quick (1,64) (37,5); thorough adds empty first writes, 65494/65495/70000-byte writes crossing the chunk limit, three-write scripts); contents, addresses, ports, salts, cut points symbolic. Write sizes of every value are covered on the encoder side by C03. VMess and Trojan compositions, the response direction, the two forward pumps, try_join!, EOF propagation, transports and sockets are outside: a change confined to relay_tcp/relay_bidirectional is not detected.',
+    technique='MIR symbolic execution to z3 (real encoder output fed to the real decoder under the ideal-AEAD log)', design='DESIGN.md section 2, C01 and section 7')
+
+CHECKS['C03'] = dict(
+    text='Sender side of the wire format on the real code: the Shadowsocks TCP encoders (three AEAD ciphers and three 2022 ciphers, client and server mode) are executed on a write of symbolic length and content followed by a second write; the sequence of (key identity, nonce, plaintext) they seal and the bytes they emit are compared with the layout the specifications prescribe: session key derived from (pre-shared key, the salt that starts the stream), nonces 0,1,2,... in sealing order, every length chunk announcing exactly the following payload chunk, payload chunks within the sender limit (0x3FFF for the AEAD ciphers, 0xFFFF for 2022), 2022 fixed header = [type, timestamp = clock, request-salt echo, length of the variable header], padding only on an empty first write and at most 900 bytes, sealed plaintext = address, padding, then exactly the bytes written, emitted length = salt + sum(chunk + tag). Shadowsocks 2022 identity headers (with_eih) for chains of 1, 2 and 3 identity keys: header i is AES-ECB(BLAKE3 identity sub-key of identity key i and the salt, first 16 bytes of BLAKE3(next key of the chain)), in order (replayed against an independent native computation). The receiver side (streams laid out from the specifications by an independent sender are accepted with the same payload in every segmentation) is the C04 check.',
+    note='A solver decides structure and limits, not byte equality of BLAKE3/HKDF/MD5/AES-GCM outputs with an independent implementation (those are pinned by the repository known-answer tests); VMess and Trojan sender layouts, datagram layouts and identity-header chains are not yet compared. Bounds: first write up to 3 chunks, second up to 2.',
+    technique='MIR symbolic execution to z3 (seal log of the real encoders against the specification layout)', design='DESIGN.md section 2, C03 and section 7')
+
+CHECKS['C02'] = dict(
+    text='Datagram-in-stream framings on the real decoders: one datagram in the Trojan UDP framing ([address][length][CRLF][payload], laid out from the protocol description with symbolic payload size 0..65535, content and IPv4 or domain address) followed by an arbitrary tail, with the buffer cut at an arbitrary point, is given to the real server decoder (ServerCodec in its Udp state) and the real client udp::ClientCodec: before the datagram is complete nothing is yielded and nothing is consumed; once it is complete exactly that payload - a window of the received bytes, never truncated, extended or shifted - is yielded with exactly the address on the wire, and exactly the bytes after it are left, so by induction over the datagrams of a stream (the decoders keep no state between datagrams) every stream in every segmentation yields every datagram once, whole and in order. The VMess datagram framing (one authenticated chunk per datagram through the server codec and decode_packet, K items for K datagrams in every segmentation) is decided by the C04 jobs vmess::ServerAeadCodec[..UDP..] and vmess::decode_packet.',
+    note='Outside: ownership and routing (client binding table, server association table, TTLs, select! loops, channels, sockets); Shadowsocks UDP datagram round trips (raw-pointer encoders and the process-wide cipher cache are not executed; their decoders are covered by C07/C10/C11/C12) and Socks5UdpCodec round trips. A change in socket plumbing (e.g. a shrinking receive buffer) is not detected.',
+    technique='MIR symbolic execution to z3 (one-datagram inductive step of the Decoder contract over a symbolic buffer and cut)', design='DESIGN.md section 7, C02')
+
 NOT_APPLICABLE = {
  'C08': 'property is about long-lived async accept/select! loops under injected socket/TLS/DNS faults; no synchronous core that symbolic execution of MIR or Kani can reach (tokio runtime, epoll, FFI)',
  'C09': 'quantifies over thread interleavings of shared state; Kani has no thread model and Engine M is sequential',
